@@ -43,6 +43,10 @@ func H_C18_names() {
 	tree := VerifReference(toks)
 	vAssume(tree != nil)
 	p := NewExpressionParser()
+	if vChoice("used-before", 2) == 1 {
+		// the parser instance has already compiled another expression over the same names
+		guardedParse(func() error { return p.ParseString("a + A * b - f") })
+	}
 	err, panicked := guardedParse(func() error { return p.VerifParseInitialTokens(toks) })
 	vAssume(!panicked && err == nil)
 	occ := collectVars(tree, nil)
